@@ -115,10 +115,17 @@ func (c *Ctx) openCrashBuf(path string) {
 // Begin announces the case about to be executed: it is counted as an evaluation and
 // written to the crash buffer, so that a worker that dies from something recover()
 // cannot see is attributed to an exact case.
+// BeginHook, when set, is called at the start of every case with the case hash (monitors
+// use it to vary per-case choices that are not part of the case, e.g. the getter order).
+var BeginHook func(h uint64)
+
 func (c *Ctx) Begin(cs *Case) {
 	c.cur = cs
 	c.Res.Evaluations++
 	atomic.AddInt64(&progress, 1)
+	if BeginHook != nil {
+		BeginHook(cs.Hash())
+	}
 	if c.crash != nil {
 		c.scratch = cs.appendBinary(c.scratch[:0])
 		if len(c.scratch)+8 <= len(c.crash) {
